@@ -6,9 +6,17 @@ props = [json.loads(l) for l in open(os.path.join(ROOT, "properties.jsonl"))]
 
 import glob
 CLAIMED = {}
+# CLAIMED.txt (maintained by the coordinator): ids whose check was verified green on the unchanged tree
+# (seeds 1..3, evidence valid).  A props/Cxx.json that is not listed there is work in progress.
+VERIFIED = set(open(os.path.join(ROOT, "CLAIMED.txt")).read().split())
+REASONS = {}
+rf = os.path.join(ROOT, "not_claimed_reasons.json")
+if os.path.exists(rf):
+    REASONS = json.load(open(rf))
 for f in sorted(glob.glob(os.path.join(ROOT, "props", "*.json"))):
     p = json.load(open(f))
-    CLAIMED[p["id"]] = p["manifest"]
+    if p["id"] in VERIFIED:
+        CLAIMED[p["id"]] = p["manifest"]
 PENDING = "not yet claimed: model and check under construction (see DESIGN.md section 9 build order)"
 
 m = dict(
@@ -46,6 +54,6 @@ for p in props:
           level_claimed=dict(category="proof", text=c["text"], design_ref="DESIGN.md section " + c["design"]),
           level_note=c["note"], technique=c["technique"]))
     else:
-        m["not_applicable"].append(dict(property_id=pid, reason=PENDING))
+        m["not_applicable"].append(dict(property_id=pid, reason=REASONS.get(pid, PENDING)))
 json.dump(m, open(os.path.join(ROOT, "MANIFEST.json"), "w"), indent=1)
 print("claimed:", sorted(CLAIMED))
